@@ -2,7 +2,7 @@ use std::{fmt, io};
 
 use bitflags::bitflags;
 use bytes::{Bytes, BytesMut};
-use http::{Method, Version};
+use http::{Method, StatusCode, Version};
 use tokio_util::codec::{Decoder, Encoder};
 
 use super::{
@@ -21,6 +21,9 @@ bitflags! {
         const HEAD               = 0b0000_0001;
         const KEEP_ALIVE_ENABLED = 0b0000_1000;
         const STREAM             = 0b0001_0000;
+
+        /// Set when the response status (1xx, 204, 304) does not allow a message body.
+        const BODILESS_STATUS    = 0b0010_0000;
     }
 }
 
@@ -144,6 +147,13 @@ impl Decoder for ClientCodec {
                 };
             }
 
+            self.inner.flags.set(
+                Flags::BODILESS_STATUS,
+                req.status.is_informational()
+                    || req.status == StatusCode::NO_CONTENT
+                    || req.status == StatusCode::NOT_MODIFIED,
+            );
+
             if !self.inner.flags.contains(Flags::HEAD) {
                 match payload {
                     PayloadType::None => self.inner.payload = None,
@@ -185,6 +195,29 @@ impl Decoder for ClientPayloadCodec {
             }
             None => None,
         })
+    }
+
+    fn decode_eof(&mut self, src: &mut BytesMut) -> Result<Option<Self::Item>, Self::Error> {
+        if self.inner.payload.is_none() {
+            return Ok(None);
+        }
+
+        match self.decode(src)? {
+            Some(item) => Ok(Some(item)),
+
+            // The connection was closed before the end of the framed body was reached. Only a
+            // close-delimited body ends here; anything else has been cut short.
+            None => match self.inner.payload {
+                // a status that does not allow a body may carry framing headers without one
+                Some(ref payload)
+                    if !payload.is_eof_delimited()
+                        && !self.inner.flags.contains(Flags::BODILESS_STATUS) =>
+                {
+                    Err(PayloadError::Incomplete(None))
+                }
+                _ => Ok(None),
+            },
+        }
     }
 }
 
